@@ -229,6 +229,9 @@ pub struct Prov {
     /// poll_ready has returned Ready(Ok) and no call has consumed it yet: like tower's own services this provider relies on
     /// the Service contract and refuses (with an error, not a panic) a call that was not preceded by readiness
     ready_ok: bool,
+    /// readiness left over from before this provider was handed to the verifier (a pool with connections already checked
+    /// out, a rate limiter with slots left in its window): that many un-announced calls still succeed, later ones do not
+    spare_ready: u8,
 }
 
 impl Prov {
@@ -239,7 +242,15 @@ impl Prov {
             log: Arc::new(Mutex::new(Vec::new())),
             ready_left: rl,
             ready_ok: false,
+            spare_ready: 0,
         }
+    }
+
+    /// A long-lived provider with `n` spare slots of readiness (kept across `load`).
+    pub fn with_spare(script: Script, n: u8) -> Prov {
+        let mut p = Prov::new(script);
+        p.spare_ready = n;
+        p
     }
 
     pub fn load(&mut self, script: Script) {
@@ -307,7 +318,11 @@ impl tower::Service<GetSigningKeyRequest> for Prov {
             region: req.region().to_string(),
             service: req.service().to_string(),
         });
-        let was_ready = std::mem::replace(&mut self.ready_ok, false);
+        let mut was_ready = std::mem::replace(&mut self.ready_ok, false);
+        if !was_ready && self.spare_ready > 0 {
+            self.spare_ready -= 1;
+            was_ready = true;
+        }
         let result: Result<GetSigningKeyResponse, BoxError> = if !was_ready {
             Err("key provider: call() without a preceding poll_ready() that returned Ready(Ok) — no connection checked out".into())
         } else {
